@@ -84,8 +84,19 @@ def check_basis_case(ctx, rng, n, dt, kind, method, gen):
     import matrix_functions as mf
     import matrix_functions_types as mt
     u = torch.finfo(dt).eps
-    spec = mp.spectrum_class(rng, n, kind)
-    A, q, lam = mp.build_matrix(spec, rng.choice([1e-3, 1.0, 1e3]), n, gen, dt)
+    if kind == "dead":
+        # structurally singular input: some coordinates never receive a gradient (exactly zero rows / columns), integer-valued blocks
+        k = rng.randrange(1, n)
+        B = torch.randint(-3, 4, (k, max(k, 2)), generator=gen).to(F64)
+        Ad = torch.zeros(n, n, dtype=F64)
+        Ad[:k, :k] = B @ B.T
+        perm = torch.randperm(n, generator=gen)
+        Ad = Ad[perm][:, perm]
+        A = Ad.to(dt)
+        lam = torch.linalg.eigvalsh(Ad)
+    else:
+        spec = mp.spectrum_class(rng, n, kind)
+        A, q, lam = mp.build_matrix(spec, rng.choice([1e-3, 1.0, 1e3]), n, gen, dt)
     Ad = A.to(F64)
     scale = max(float(Ad.abs().max()), 1e-300)
     probs = []
@@ -94,13 +105,17 @@ def check_basis_case(ctx, rng, n, dt, kind, method, gen):
         Q = mf.matrix_eigenvectors(A, eigenvector_computation_config=mt.EighEigenvectorConfig()).to(F64)
         est_kind = None
     else:
-        est_kind = rng.choice(["zero", "exact", "perturbed", "random"])
+        est_kind = rng.choice(["zero", "exact", "exact_permuted", "perturbed", "random"])
         iters = rng.choice([1, 2, 5, 50])
         tol = rng.choice([0.0, 1e-5, 1e-2])
         if est_kind == "zero":
             est = torch.zeros(n, n, dtype=dt)
+        elif est_kind == "exact" and kind == "dead":
+            est = mf.matrix_eigenvectors(A, eigenvector_computation_config=mt.EighEigenvectorConfig())    # the routine's own previous output
         elif est_kind == "exact":
             est = torch.linalg.eigh(Ad)[1].to(dt)
+        elif est_kind == "exact_permuted":      # an exact eigenbasis whose columns are NOT in ascending order (e.g. a basis kept from before)
+            est = torch.linalg.eigh(Ad)[1][:, torch.randperm(n, generator=gen)].to(dt)
         elif est_kind == "perturbed":
             est = torch.linalg.qr(torch.linalg.eigh(Ad)[1] + 0.05 * torch.randn(n, n, generator=gen, dtype=F64)).Q.to(dt)
         else:
@@ -108,6 +123,10 @@ def check_basis_case(ctx, rng, n, dt, kind, method, gen):
         case.update(est=est_kind, iters=iters, tol=tol)
         Q = mf.matrix_eigenvectors(A, eigenvectors_estimate=est, eigenvector_computation_config=mt.QRConfig(max_iterations=iters, tolerance=tol)).to(F64)
     eye = torch.eye(n, dtype=F64)
+    if not bool(torch.isfinite(Q).all()):
+        ctx.violation(f"matrix_eigenvectors ({case}): finite: expected an orthonormal basis, observed NaN/Inf entries",
+                      {"kind": "eigenvectors", "clause": "finite", "method": method}, {"basis": {**case, "seed": None}})
+        return (method, est_kind, kind, str(dt), n > 8)
     oerr = float((Q.T @ Q - eye).abs().max())
     if oerr > 50 * n * u:
         probs.append(("orthonormal", f"|Q^T Q - I| <= {50 * n * u:.2e}", f"{oerr:.3e}"))
@@ -160,7 +179,7 @@ def run(ctx):
     for _ in range(400 if quick else 5000):
         n = rng.choice(sizes)
         dt = rng.choice([torch.float32, torch.float64])
-        kind = rng.choice(["distinct", "distinct", "repeated", "rankdef", "graded", "identity"])
+        kind = rng.choice(["distinct", "distinct", "repeated", "rankdef", "graded", "identity", "dead"])
         method = rng.choice(["eigh", "qr", "qr"])
         classes.add(check_basis_case(ctx, rng, n, dt, kind, method, gen))
         ctx.add("evaluations")
@@ -169,7 +188,8 @@ def run(ctx):
     ctx.put("rule", "MC: dispatch of matrix_eigenvectors (1x1 -> ones, diagonal flag -> identity, eigh, QR with zero estimate -> eigh, otherwise "
                     "orthogonal iteration) as a table evaluated by TLC and compared with the real routine on every descriptor; O: symmetric PSD "
                     "matrices n<=64 (32 quick) with distinct / repeated / rank-deficient / graded spectra, float32/64, eigh and QR (1..50 "
-                    "iterations, tolerances) with zero / exact / perturbed / random orthonormal estimates: orthonormality, diagonalisation (eigh), "
+                    "iterations, tolerances) with zero / exact / exact-but-permuted / perturbed / random orthonormal estimates, also structurally singular "
+                    "integer matrices with dead coordinates: orthonormality, diagonalisation (eigh), "
                     "ascending order, agreement with a float64 reference orthogonal iteration up to column signs (distinct spectra), fixed point "
                     "for exact eigenbases of positive definite matrices; distinct = (method, estimate, spectrum class, dtype, n>8)")
     ctx.sample({"dispatch": cases[5]["d"], "spec_says": exp[5]["outcome"]})
